@@ -200,6 +200,14 @@ func genSchema(r *rand.Rand, depth int, static bool, reserved []string) *Schema 
 	if len(s.Attrs) == 0 && len(s.Blocks) == 0 {
 		s.Attrs = append(s.Attrs, genAttrS(r, ns, static))
 	}
+	if depth == 3 && r.Intn(3) == 0 {
+		s.Partial = true
+		ns["zz_unknown"] = true
+		for i, n := 0, 1+r.Intn(3); i < n; i++ {
+			s.Extras = append(s.Extras, ns.fresh(r))
+		}
+		s.RemainKind = []string{"body", "struct"}[r.Intn(2)]
+	}
 	return s
 }
 
@@ -510,6 +518,11 @@ func (a *AttrS) nullable() bool {
 // genBody generates the items of one body for schema s.
 func genBody(r *rand.Rand, s *Schema) []*Item {
 	var items []*Item
+	for _, n := range s.Extras {
+		if r.Intn(5) < 3 {
+			items = append(items, &Item{K: "attr", Name: n, Val: genAny(r, 2)})
+		}
+	}
 	for i := range s.Attrs {
 		a := &s.Attrs[i]
 		if a.Mode != "req" && r.Intn(5) < 2 {
@@ -530,10 +543,11 @@ func genBody(r *rand.Rand, s *Schema) []*Item {
 				n = 1
 			}
 		default:
-			n = pick(r, 2, 3, 4, 3, 1)
+			n = pick(r, 3, 4, 4, 2, 1)
 		}
 		seen := map[string]bool{}
 		var made []*Item
+		uniform := r.Intn(2) == 0
 		for j := 0; j < n; j++ {
 			if b.Mode == "set" && len(made) > 0 && r.Intn(4) == 0 {
 				made = append(made, made[r.Intn(len(made))].clone()) // identical blocks collapse in a set
@@ -555,13 +569,19 @@ func genBody(r *rand.Rand, s *Schema) []*Item {
 				}
 				seen[key] = true
 			}
-			if b.Mode == "attrs" {
+			switch {
+			case b.Mode == "attrs":
 				ns := nameSet{}
 				na := r.Intn(4)
 				for k := 0; k < na; k++ {
 					blk.Body = append(blk.Body, &Item{K: "attr", Name: ns.fresh(r), Val: genVal(r, *b.Elem, 1)})
 				}
-			} else {
+			case uniform && len(made) > 0:
+				// same attributes and nested blocks as the first block of this type, other
+				// values: what repeated blocks usually look like, and what one dynamic
+				// block can generate
+				blk.Body = regenBody(r, b.Body, made[0].Body)
+			default:
 				blk.Body = genBody(r, b.Body)
 			}
 			made = append(made, blk)
@@ -570,6 +590,30 @@ func genBody(r *rand.Rand, s *Schema) []*Item {
 	}
 	// interleave: shuffle while keeping same-type blocks in their generated order
 	return reorderItems(r, items)
+}
+
+// regenBody: a body with the same shape as like (same attributes present, same nested
+// blocks with the same labels) and, mostly, other attribute values.
+func regenBody(r *rand.Rand, s *Schema, like []*Item) []*Item {
+	var out []*Item
+	for _, it := range like {
+		if it.K == "attr" {
+			a := s.attr(it.Name)
+			if a == nil || it.Val.K == "null" || r.Intn(4) == 0 {
+				out = append(out, it.clone())
+				continue
+			}
+			out = append(out, &Item{K: "attr", Name: it.Name, Val: genVal(r, a.Type, 2)})
+			continue
+		}
+		bs := s.block(it.Name)
+		if bs == nil || bs.Body == nil || r.Intn(3) == 0 {
+			out = append(out, it.clone())
+			continue
+		}
+		out = append(out, &Item{K: "block", Name: it.Name, Labels: append([]string{}, it.Labels...), Body: regenBody(r, bs.Body, it.Body)})
+	}
+	return out
 }
 
 // reorderItems permutes items; items of one order class keep their relative order.
